@@ -45,8 +45,33 @@ func isByteSliceT(t types.Type) bool {
 
 // accFieldLoad: v loads ptr.<field>.
 func (a *accCtx) isField(addr ssa.Value) bool {
+	if a.field == sliceCell {
+		return addr == a.ptr
+	}
 	fa, ok := addr.(*ssa.FieldAddr)
 	return ok && fa.X == a.ptr && fa.Field == a.field
+}
+
+// sliceCell as field index: the object is itself a []byte variable that lives
+// in memory because closures capture it (data = append(data, …) inside
+// emit := func(b []byte) { … }).
+const sliceCell = -1
+
+// cellOf: u loads a local []byte variable that closures capture.
+func cellOf(u *ssa.UnOp) (*ssa.Alloc, bool) {
+	if u.Op != token.MUL || !isByteSliceT(u.Type()) {
+		return nil, false
+	}
+	al, ok := u.X.(*ssa.Alloc)
+	if !ok || al.Referrers() == nil {
+		return nil, false
+	}
+	for _, r := range *al.Referrers() {
+		if _, isMC := r.(*ssa.MakeClosure); isMC {
+			return al, true
+		}
+	}
+	return nil, false
 }
 
 // objOf: u loads the []byte field of a local struct object; returns the object.
@@ -78,12 +103,70 @@ func (s *Streamer) objField(obj *ssa.Alloc, field int, at *ssa.UnOp) []*Piece {
 	add := func(in ssa.Instruction, ps []*Piece) {
 		ops[in.Block()] = append(ops[in.Block()], bufOp{in, ps})
 	}
+	var first *ssa.Store // the initialising store of a slice cell
 	for _, r := range *obj.Referrers() {
 		switch x := r.(type) {
 		case *ssa.DebugRef:
+		case *ssa.UnOp:
+			if field != sliceCell || x.Op != token.MUL {
+				return unknown(at, "writer object %s is copied as a whole", obj.Name())
+			}
+		case *ssa.MakeClosure:
+			if field != sliceCell {
+				return unknown(at, "writer object %s is captured by a closure", obj.Name())
+			}
+			cf, _ := x.Fn.(*ssa.Function)
+			var fv ssa.Value
+			for i, b := range x.Bindings {
+				if b == ssa.Value(obj) && cf != nil && i < len(cf.FreeVars) {
+					if fv != nil {
+						return unknown(at, "the accumulator is captured twice by one closure")
+					}
+					fv = cf.FreeVars[i]
+				}
+			}
+			if fv == nil || cf == nil || cf.Blocks == nil || x.Referrers() == nil {
+				return unknown(at, "a closure capturing the accumulator is not followed")
+			}
+			for _, rr := range *x.Referrers() {
+				switch y := rr.(type) {
+				case *ssa.DebugRef:
+				case *ssa.Call:
+					if y.Common().Value != ssa.Value(x) {
+						return unknown(at, "a closure capturing the accumulator is passed to a call")
+					}
+					d, why := s.calleeDelta(y, cf, fv, field, s.frame, 0)
+					if why != "" {
+						return unknown(y, "%s", why)
+					}
+					add(y, d)
+				default:
+					return unknown(at, "a closure capturing the accumulator is stored, deferred or otherwise not called directly")
+				}
+			}
 		case *ssa.Store:
 			if x.Addr != ssa.Value(obj) {
 				return unknown(at, "the address of writer object %s is stored", obj.Name())
+			}
+			if field == sliceCell {
+				d, why := s.directDelta(obj, field, x)
+				if why == notExtending && first == nil {
+					// data := []byte{} / make([]byte, 0, n): the initial content
+					first = x
+					ps := s.Stream(x.Val)
+					for _, p := range ps {
+						if p.Kind == "unknown" {
+							return unknown(x, "%s", p.Why)
+						}
+					}
+					add(x, ps)
+					continue
+				}
+				if why != "" {
+					return unknown(x, "%s", why)
+				}
+				add(x, d)
+				continue
 			}
 			// w := T{…} / *w = T{…}: the field's initial value
 			iv, ifr, ok := structField(x.Val, s.frame, field, 0)
@@ -129,6 +212,16 @@ func (s *Streamer) objField(obj *ssa.Alloc, field int, at *ssa.UnOp) []*Piece {
 			return unknown(at, "writer object %s is used by %T", obj.Name(), r)
 		}
 	}
+	if first != nil {
+		// the initialising store must come before every other operation
+		for _, bops := range ops {
+			for _, op := range bops {
+				if op.in != ssa.Instruction(first) && !instrBefore(first, op.in) {
+					return unknown(first, "the accumulator is re-initialised after it has been written")
+				}
+			}
+		}
+	}
 	return s.accumulate(ops, obj.Block(), at, "writer object")
 }
 
@@ -153,6 +246,8 @@ func fieldOnlyLoadedOrStored(fa *ssa.FieldAddr) string {
 	}
 	return ""
 }
+
+const notExtending = "the value stored into the accumulator does not extend its previous content"
 
 // directDelta: st is `obj.field = <value>` in the owning function; the value
 // must read as (the field's previous content) ++ delta.
@@ -186,7 +281,7 @@ func (s *Streamer) directDelta(obj *ssa.Alloc, field int, st *ssa.Store) ([]*Pie
 		}
 	}
 	if len(ps) == 0 || ps[0] != mk {
-		return nil, "the value stored into the accumulator does not extend its previous content"
+		return nil, notExtending
 	}
 	for _, p := range ps[1:] {
 		if p == mk {
@@ -223,6 +318,12 @@ func (s *Streamer) methodDelta(call *ssa.Call, obj ssa.Value, field int, fr *Fra
 	if prm == nil {
 		return nil, "the writer object is not an argument of " + f.Name()
 	}
+	return s.calleeDelta(call, f, prm, field, fr, depth)
+}
+
+// calleeDelta: f is entered at call with ptrIn (a parameter or a free variable
+// of f) denoting the object.
+func (s *Streamer) calleeDelta(call *ssa.Call, f *ssa.Function, prm ssa.Value, field int, fr *Frame, depth int) ([]*Piece, string) {
 	if len(f.Blocks) != 1 {
 		return nil, "method " + f.Name() + " of the writer object is not straight-line"
 	}
@@ -244,6 +345,14 @@ func (s *Streamer) methodDelta(call *ssa.Call, obj ssa.Value, field int, fr *Fra
 					return nil, "in method " + f.Name() + " a field of the writer object " + why
 				}
 			case *ssa.Call:
+			case *ssa.UnOp:
+				if field != sliceCell || x.Op != token.MUL {
+					return nil, "method " + f.Name() + " copies the writer object"
+				}
+			case *ssa.Store:
+				if field != sliceCell || x.Addr != prm {
+					return nil, "method " + f.Name() + " stores the writer object"
+				}
 			default:
 				return nil, "method " + f.Name() + " uses the writer object in a way that is not followed"
 			}
@@ -278,7 +387,7 @@ func (s *Streamer) methodDelta(call *ssa.Call, obj ssa.Value, field int, fr *Fra
 		case *ssa.Call:
 			uses := false
 			for _, a := range x.Common().Args {
-				if a == ssa.Value(prm) {
+				if a == prm {
 					uses = true
 				}
 			}
